@@ -90,6 +90,19 @@ CLAIMED.update({
           "token streams <= 4; character-level facts need LXC.",
           XH, "DESIGN §6 C18"),
 })
+LRC = "SMT chart (z3, bit-blast + SAT) of the run of the real LALR tables over a symbolic token string"
+CLAIMED["C06"] = C("for ALL token strings up to the bound: acceptance by the real LALR tables == derivability in the productions with the "
+                   "operator-table filters of the property; no accepted string groups a parent/child pair against the table; encoder validated "
+                   "against the real parser every run.",
+                   "Bounds: full alphabet L<=6 (quick) / 8 (thorough), operator slice 7/9, bracket slice 8/10, statement slice 7/9. PLY's driver loop is "
+                   "modelled by the chart rules (validated, not executed symbolically); grouping facts the property does not spell out are not demanded.",
+                   LRC + " + CFG chart with operator-table filters", "DESIGN §4, §6 C06", engine="LRC")
+for k, extra in (("C15", " Token level (LRC): acceptance invariance of trailing commas, redundant parentheses, blank statements and DOT/PIPE over all token strings up to the bound."),
+                 ("C16", " Token level (LRC): every token string up to the bound is accepted xor stops at exactly one error configuration handled by p_error(token or None)."),
+                 ("C20", " Token level (LRC): the token handed to p_error has no accepted continuation, for all token strings up to the bound.")):
+    CLAIMED[k]["text"] += extra
+    CLAIMED[k]["engine"] = "XH+LRC"
+    CLAIMED[k]["technique"] += "; " + LRC
 NOT_YET = {}
 NA = {}
 
@@ -127,6 +140,8 @@ def main():
         "engines": [
             {"name": "XH", "path": "sqv/xh_worker.py", "serves_properties": sorted(k for k, v in CLAIMED.items() if "XH" in v.get("engine", "XH")),
              "kind_free_text": "CrossHair 0.0.110 symbolic execution (z3) of the real Python functions from a snapshot of /repo"},
+            {"name": "LRC", "path": "sqv/lrc.py", "serves_properties": sorted(k for k, v in CLAIMED.items() if "LRC" in v.get("engine", "XH")),
+             "kind_free_text": "z3 chart encoding of the real LALR(1) tables (regenerated from the snapshot) over symbolic token strings"},
         ],
         "checks": checks,
         "not_applicable": na,
